@@ -18,6 +18,15 @@ CHECKS = {
  'C18': dict(engine=E1, ref='DESIGN.md 3/C18', technique='exhaustive enumeration of all strings up to length 6 over a character-class alphabet against hand-written grammar recognisers',
    text='All 1.1 million strings of length <= 6 over one representative per character class are given to the five validators twice (in both orders, so cross-validator caches show) and compared with recognisers written from the specification; the 255-byte boundary; every string of length <= 3 (4 thorough) in each of the 11 name-carrying constructor slots with the wire content re-read by the reference parser.',
    note='Character classes are represented by one member each; longer names only at the length boundary. Trusts mcx/ref/grammar.py.'),
+ 'C03': dict(engine=E1, ref='DESIGN.md 3/C03', technique='bounded-exhaustive enumeration of message descriptions; every message checked by an independent parser and re-parsed; foreign encodings enumerated over byte order, header-field permutations and unknown field positions',
+   text='All combinations of message type, optional header fields, flag bits, 30 bodies covering every alignment and every header padding 0..7 are constructed; an independent parser checks well-formedness (typed fields, flags byte, padding, body length, fresh serial) and parseMessage must recover everything, both from its own bytes and from the bytes a conforming foreign encoder produces (both byte orders, permuted fields, unknown field codes at every position). The 2**27 limit is probed with real messages at -1/0/+1/+8 bytes.',
+   note='Bodies are a fixed list of 30 (the full value space is C01/C02). Trusts mcx/refcodec message encoder/parser.'),
+ 'C05': dict(engine=E1, ref='DESIGN.md 3/C05', technique='exhaustive mutation enumeration (truncations, byte substitutions, lying length words, all short hostile signatures) under a deterministic interpreter-step budget',
+   text='Every truncation, every position x substitution set, every aligned length word x lying values of 12 base messages, every string of length <= 4 (6 thorough) over the container alphabet as body signature and as variant signature against 6 hostile bodies, plus zero-size-element, deep-nesting and large lying-length families, are parsed by parseMessage and delivered to BasicDBusProtocol under a line-event budget affine in the input length; exceeding it, MemoryError, or a result larger than the input is a violation.',
+   note='Decides "bounded work" as "within 600000+100*len interpreter line events"; the constant covers the bracket matcher, which is quadratic in the (<=255 byte) signature. Which exception is raised is not compared.'),
+ 'C19': dict(engine=E1, ref='DESIGN.md 3/C19', technique='exhaustive enumeration of signatures from the grammar with their decomposition; exhaustive enumeration of Python values to depth 2 filtered by a reference claim predicate',
+   text='Every signature sequence up to the node bound is generated together with its decomposition and compared with genCompleteTypes and the argument counts of Method/Signal; every Python value of depth <= 2, width <= 2 over 30 atoms (plain values and wrapper classes at range boundaries) inside the claim must get a single complete type, wrappers exactly theirs, and survive a variant round trip that the reference decoder can also read.',
+   note='ref_type() in mcx/checks/c19.py states which values are inside the claim (first-element rule). Depth 3 only over a small pool (thorough).'),
 }
 
 REASON_TODO = 'check not built yet in this snapshot (planned in DESIGN.md section 3); nothing is claimed for it'
